@@ -17,7 +17,7 @@ NPROCS = [1, 2, 3, 4, 5, 7, 8, 16]
 # relative tolerances: quantities before the solve only see summation-order rounding; after the solve the PCG tolerance
 # (1e-11 relative defect) times the condition number enters
 TOL = {"rhs_norm_unfiltered": 1e-12, "int_norm": 1e-12, "dot_int_rhs": 1e-12, "aint_norm": 1e-12, "energy": 1e-12, "maxabs": 1e-14, "t0_norm": 1e-12, "rhs_norm": 1e-12,
-       "def_init": 1e-12, "sol_norm": 1e-7, "h0_err": 1e-5, "h1_err": 1e-6}
+       "def_init": 1e-12, "p0_dot": 1e-12, "p0_norm": 1e-12, "p0_norm_async": 1e-12, "p0_max": 1e-14, "sol_norm": 1e-7, "h0_err": 1e-5, "h1_err": 1e-6}
 
 
 def run_mpi(binp, root, n, mesh, levels, shape, space, solver, extra, timeout=300):
@@ -74,6 +74,8 @@ def main():
         r, rerr, rcmd = reference(mesh, top, shape, space, solver)
         if rerr:
             return "one-process reference failed: " + rerr
+        if r.get("p0_dofs") != d.get("p0_dofs"):
+            return "number of global P0 dofs %s differs from the one-process run %s" % (d.get("p0_dofs"), r.get("p0_dofs"))
         if r["num_dofs"] != d["num_dofs"]:
             return "number of global dofs %s differs from the one-process run %s" % (d["num_dofs"], r["num_dofs"])
         if d["status"] != "success" or r["status"] != "success":
